@@ -88,29 +88,32 @@ fn any_fd_full() -> FormattingData {
     fd(false, kani::any(), kani::any(), kani::any(), kani::any())
 }
 
-harness! {
-    /// S1 (K-SPC): after the real `TokenSpacing::format`, for every kind triple and arbitrary
-    /// original counters, spaces_before is 0 or 1 -- except for the token directly after an
-    /// inline line comment (always broken off later, K-BRK) -- and 0 for the first token.
-    fn c08_s1_spacing_zero_or_one_3kinds() unwind(5) {
-        let kinds = [any_token_type(), any_token_type(), any_token_type()];
-        let tokens = vec![tok("ab", 0, kinds[0]), tok("cd", 0, kinds[1]), tok("ef", 0, kinds[2])];
-        let mut ft = FormattedTokens::verif_new(leak_tokens(tokens), vec![any_fd_full(), any_fd_full(), any_fd_full()]);
-        TokenSpacing {}.format(&mut ft, &[]);
-        let sp = |i: usize| ft.get_formatting_data(i).unwrap().spaces_before;
-        assert!(sp(0) == 0);
-        let mut i = 1;
-        while i < 3 {
-            let after_inline_line_comment = kinds[i - 1] == TokenType::Comment(CommentKind::InlineLine);
-            if !after_inline_line_comment {
-                assert!(sp(i) <= 1);
-            }
-            i += 1;
-        }
-        cover!(sp(1) == 1 && sp(2) == 0, "one_then_zero");
-        std::mem::forget(ft);
+/// S1 (K-SPC): after the real `TokenSpacing::format`, for every kind triple, arbitrary original
+/// counters and ignored flags, spaces_before is 0 or 1 -- except for the token directly after an
+/// inline line comment (always broken off later, K-BRK) -- and 0 for the first token; no other
+/// counter and no ignored flag is touched (asserted inside `run_spacing`).
+fn s1_body<const N: usize>() {
+    let mut kinds = [TokenType::Identifier; N];
+    let mut k = 0;
+    while k < N {
+        kinds[k] = any_token_type();
+        k += 1;
     }
+    let o = crate::spacing::any_orig::<N>();
+    let sp = crate::spacing::run_spacing(&kinds, &o);
+    assert!(sp[0] == 0);
+    let mut i = 1;
+    while i < N {
+        let after_inline_line_comment = kinds[i - 1] == TokenType::Comment(CommentKind::InlineLine);
+        if !after_inline_line_comment {
+            assert!(sp[i] <= 1, "more than one space between two tokens");
+        }
+        i += 1;
+    }
+    cover!(sp[1] == 1 && sp[2] == 0, "one_then_zero");
 }
+harness! { fn c08_s1_spacing_zero_or_one_3kinds() unwind(6) { s1_body::<3>() } }
+harness! { fn c08_s1_spacing_zero_or_one_4kinds() unwind(7) { s1_body::<4>() } }
 
 harness! {
     /// S2: the tail of the real `OptimisingLineFormatter::format` (no logical lines => the search
